@@ -233,6 +233,36 @@ def rule_positional(ctx, R):
                         ctx.check(src.has_field('confidence') or src.has_field(minconf), R, cb,
                                   kind + ':iou-multiplied-by-confidence', repr(src)[:100],
                                   'IoU is multiplied by %r instead of the (floored) detection confidence' % src)
+        inline_order = False
+        if cmo and not (gate_found and mul_found):
+            # inline form: `match iou_opt { Some(iou) => { let w = iou * conf; if w >= threshold { Some(w) } .. } }`
+            from lib import orient as _orient
+            for i_ in sorted(b.live_blocks()):
+                for si_, s_ in enumerate(b.blocks[i_]['st']):
+                    if s_['k'] == 'assign' and s_['rv']['k'] == 'bin' and s_['rv']['op'] == 'Mul' and \
+                            'f32' in b.locals[s_['lhs']['l']]:
+                        e_ = eb._rvalue(s_['rv'], (), 0, (i_, si_))
+                        fa = [x for x in e_.args if x.has_call('calculate_metric_object')]
+                        fo = [x for x in e_.args if not x.has_call('calculate_metric_object')]
+                        if len(fa) == 1 and len(fo) == 1:
+                            mul_found = True
+                            n += 1
+                            ctx.check(fo[0].has_field('confidence') or fo[0].has_field(minconf), R, b,
+                                      kind + ':iou-multiplied-by-confidence', repr(fo[0])[:100],
+                                      'IoU is multiplied by %r instead of the (floored) detection confidence' % fo[0])
+                for k_ in path_conditions(b, i_):
+                    cm = k_.cmp()
+                    if not cm:
+                        continue
+                    o_ = _orient(cm, lambda x: x.has_call('calculate_metric_object'))
+                    if o_ and 'IoU' in repr(o_[2]) and not gate_found:
+                        gate_found = True
+                        inline_order = any(x.kind == 'bin' and x.name == 'Mul' for x in o_[1].walk())
+                        n += 1
+                        ctx.check(o_[0] == 'Ge', R, b, kind + ':iou-gate-at-least-threshold',
+                                  'kept iff weight %s threshold' % o_[0],
+                                  'a pair passes the IoU gate when `weight %s threshold` (expected >=: "at least the '
+                                  'IoU threshold")' % o_[0])
         if cmo:
             n += 1
             ctx.check(gate_found and mul_found, R, b, kind + ':iou-weight=iou*conf-then-gate', '',
@@ -241,7 +271,8 @@ def rule_positional(ctx, R):
             # order: gate applied after the product
             e0 = eb.place(0, ())
             flt = e0.calls('filter')
-            okord = any(x.has_call('map') and x.has_call('calculate_metric_object') for f_ in flt for x in [f_.args[0]])
+            okord = inline_order or any((x.has_call('map') or any(y.kind == 'bin' and y.name == 'Mul' for y in x.walk()))
+                                        and x.has_call('calculate_metric_object') for f_ in flt for x in [f_.args[0]])
             n += 1
             ctx.check(okord, R, b, kind + ':gate-after-product', '', 'the threshold gate is not applied to the '
                       'confidence-weighted IoU')
@@ -535,6 +566,29 @@ def rule_gallery(ctx, R):
                         for cb in closure_args_of_call(F, ob, c):
                             e = ExprBuilder(cb).place(0, ())
                             pred_ok = pred_ok or (e.kind == 'call' and e.name.endswith('is_some') and e.has_call('feature'))
+                    if not (okc and pred_ok):
+                        # loop form: `let mut k = 0; for o in observations { if o.feature().is_some() { k += 1 } }`
+                        adds = [x for x in v.walk() if x.kind == 'bin' and x.name == 'Add' and x.site and
+                                x.args[1].kind == 'const' and x.args[1].const.get('v') == '1']
+                        for a in adds:
+                            abb = a.site[0]
+                            hs = [h for h, blks in ob.loops().items() if abb in blks]
+                            if not hs or not ps:
+                                continue
+                            h = hs[0]
+                            nx = [x for x in ob.find_calls('std::iter::Iterator::next') if x.bb in ob.loops()[h]]
+                            over_obs = any(eb.arg(x, 0).has_place(root=('param', 5)) for x in nx)
+                            conds = path_conditions(ob, abb)
+                            feat = any((k.kind == 'bool' and k.truth is True and k.expr.kind == 'call' and
+                                        k.expr.name.endswith('is_some') and k.expr.has_call('feature')) or
+                                       (k.kind == 'discr' and k.variants == {'Some'} and k.expr.has_call('feature'))
+                                       for k in conds)
+                            zero_init = any(x.kind == 'const' and x.const.get('v') == '0' for x in v.walk())
+                            from lib import count_per_iteration
+                            once = count_per_iteration(ob, h, [abb])
+                            if over_obs and feat and zero_init and ob.dominates(ps[0].bb, h) and once is not None and \
+                                    once[1] == 1:
+                                okc = pred_ok = True
                     ctx.check(okc and pred_ok, R, ob, 'optimize:count=stored-features-after-push', repr(v)[:100],
                               'visual_features_collected_count is set to %r (expected the number of feature-bearing '
                               'observations counted after the new one was pushed)' % v, s['ln'])
@@ -595,7 +649,17 @@ def rule_collect_gate(ctx, R_collect, R_use):
         # conjunction: all three necessary
         uo = [x for e in facts for x in e.walk() if x.kind == 'call' and x.name.endswith('unwrap_or')]
         n += 1
-        ctx.check(any(x.args[1].const_value() is True for x in uo), R_use, fb, 'usable:missing-own-area-passes', '',
+        passes = any(x.args[1].const_value() is True for x in uo)
+        if not passes:
+            # match / if-let form: some path on which the helper can return true goes through "own-area share is None"
+            from lib import eval_bool_paths_ex
+            for conds_, val_, _site in eval_bool_paths_ex(fb):
+                if val_ is False:
+                    continue
+                if any(k.kind == 'discr' and k.variants == {'None'} and k.expr.strip().kind == 'place' and
+                       k.expr.strip().root[0] == 'param' for k in conds_):
+                    passes = True
+        ctx.check(passes, R_use, fb, 'usable:missing-own-area-passes', '',
                   'a detection without an own-area share is not treated as passing the own-area condition')
     mb = ctx.anchor(R_use, VIS_METRIC + '::metric')
     if mb is not None:
